@@ -24,9 +24,10 @@ import (
 	"time"
 
 	"github.com/quic-go/quic-go"
+	"github.com/quic-go/quic-go/http3"
 )
 
-// Handler decides the answers. proto is "udp", "tcp", "tls", "https" or "quic".
+// Handler decides the answers. proto is "udp", "tcp", "tls", "https", "h3" or "quic".
 // connID identifies the transport connection (0 for udp / https).
 type Handler func(q []byte, proto string, connID int, reply func(b []byte))
 
@@ -188,6 +189,24 @@ func ServeDoH(pki *PKI, h Handler) (*Server, error) {
 	if err != nil {
 		return nil, err
 	}
+	mux := dohMux(h, "https")
+	srv := &http.Server{Handler: mux, TLSConfig: &tls.Config{Certificates: []tls.Certificate{pki.Cert}, NextProtos: []string{"h2", "http/1.1"}}}
+	go srv.ServeTLS(ln, "", "")
+	return &Server{Proto: "https", Addr: ln.Addr().String(), close: func() { srv.Close() }}, nil
+}
+
+// ServeDoH3 starts a DoH server speaking HTTP/3 at /dns-query.
+func ServeDoH3(pki *PKI, h Handler) (*Server, error) {
+	pc, err := net.ListenPacket("udp", "127.0.0.1:0")
+	if err != nil {
+		return nil, err
+	}
+	srv := &http3.Server{Handler: dohMux(h, "h3"), TLSConfig: http3.ConfigureTLSConfig(&tls.Config{Certificates: []tls.Certificate{pki.Cert}}), QUICConfig: &quic.Config{MaxIncomingStreams: 1000, MaxIdleTimeout: 30 * time.Second}}
+	go srv.Serve(pc)
+	return &Server{Proto: "h3", Addr: pc.LocalAddr().String(), close: func() { srv.Close(); pc.Close() }}, nil
+}
+
+func dohMux(h Handler, proto string) *http.ServeMux {
 	mux := http.NewServeMux()
 	mux.HandleFunc("/dns-query", func(w http.ResponseWriter, r *http.Request) {
 		var q []byte
@@ -202,7 +221,7 @@ func ServeDoH(pki *PKI, h Handler) (*Server, error) {
 			return
 		}
 		done := make(chan []byte, 1)
-		h(q, "https", 0, func(b []byte) {
+		h(q, proto, 0, func(b []byte) {
 			select {
 			case done <- b:
 			default: // only one reply per HTTP request can be delivered
@@ -217,9 +236,7 @@ func ServeDoH(pki *PKI, h Handler) (*Server, error) {
 			http.Error(w, "timeout", 504)
 		}
 	})
-	srv := &http.Server{Handler: mux, TLSConfig: &tls.Config{Certificates: []tls.Certificate{pki.Cert}, NextProtos: []string{"h2", "http/1.1"}}}
-	go srv.ServeTLS(ln, "", "")
-	return &Server{Proto: "https", Addr: ln.Addr().String(), close: func() { srv.Close() }}, nil
+	return mux
 }
 
 // ServeDoQ starts a DNS-over-QUIC server (ALPN "doq").
@@ -307,6 +324,8 @@ func (s *Server) URL(pipeline bool) string {
 		return "tls://" + s.Addr
 	case "https":
 		return "https://" + s.Addr + "/dns-query"
+	case "h3":
+		return "h3://" + s.Addr + "/dns-query"
 	case "quic":
 		return "quic://" + s.Addr
 	}
